@@ -408,4 +408,169 @@ def readFrame (fr : Framer) (bs : List Nat) : ReadResult :=
         else ⟨parseFrame fh (body.take fh.length), some fh, fr', body.drop fh.length⟩
   | _ => ⟨.error .unexpectedEOF, none, fr, []⟩
 
+/-! ## `ReadMetaHeaders`: `readMetaFrame` over abstract HPACK decoder output
+
+HPACK decoding itself is not modelled here (C01–C05 do that). One call
+`hdec.Write(frag)` is abstracted by a `FragDec`:
+* `fields`     — the fields the decoder hands to the emit callback, in order, as long as the
+                 callback has not disabled emission (`SetEmitEnabled(false)`); once emission
+                 is disabled the decoder calls the callback no more;
+* `errEnabled` — `Write` fails after those fields if emission is then still enabled
+                 (errors of `decodeString` of a non-indexed literal are skipped by the
+                 decoder when emission is disabled);
+* `errAlways`  — `Write` fails in this fragment whether or not emission is enabled.
+and `hdec.Close()` by `closeErr`. The theorems quantify over all such outcomes.
+-/
+
+structure Field where
+  name : List Nat
+  value : List Nat
+deriving DecidableEq, Repr, Inhabited
+
+structure FragDec where
+  fields : List Field := []
+  errEnabled : Bool := false
+  errAlways : Bool := false
+deriving Repr, Inhabited
+
+structure HpackOracle where
+  decs : List FragDec := []
+  closeErr : Bool := false
+deriving Repr, Inhabited
+
+/-- `httpguts.isTokenTable[b]`. -/
+def isTokenByte (b : Nat) : Bool :=
+  (48 ≤ b && b ≤ 57) || (65 ≤ b && b ≤ 90) || (97 ≤ b && b ≤ 122) ||
+  b == 33 || b == 35 || b == 36 || b == 37 || b == 38 || b == 39 || b == 42 || b == 43 ||
+  b == 45 || b == 46 || b == 94 || b == 95 || b == 96 || b == 124 || b == 126
+
+/-- `validWireHeaderFieldName` on the bytes of the string (a byte ≥ 0x80 decodes to a rune
+≥ 0x80 or to RuneError, which `IsTokenRune` rejects). -/
+def validWireHeaderFieldName (v : List Nat) : Bool :=
+  !v.isEmpty && v.all (fun b => b < 128 && isTokenByte b && !(65 ≤ b && b ≤ 90))
+
+/-- `httpguts.ValidHeaderFieldValue`: no CTL except LWS (HTAB; SP is not a CTL). -/
+def validHeaderFieldValue (v : List Nat) : Bool :=
+  v.all (fun b => !((b < 32 || b == 127) && !(b == 32 || b == 9)))
+
+/-- `strings.HasPrefix(name, ":")` = `HeaderField.IsPseudo`. -/
+def Field.isPseudo (f : Field) : Bool :=
+  match f.name with
+  | 58 :: _ => true
+  | _ => false
+
+/-- `HeaderField.Size()` (a uint32). -/
+def Field.size (f : Field) : Nat := (f.name.length + f.value.length + 32) % 4294967296
+
+/-- `Framer.maxHeaderListSize()`. -/
+def maxHeaderListSize (configured : Nat) : Nat := if configured = 0 then 16777216 else configured
+
+/-- the variables captured by the emit callback of `readMetaFrame`. -/
+structure MetaState where
+  remainSize : Nat
+  sawRegular : Bool := false
+  invalid : Bool := false
+  enabled : Bool := true      -- hdec.emitEnabled
+  truncated : Bool := false   -- mh.Truncated
+  fields : List Field := []   -- mh.Fields
+deriving Repr
+
+/-- does the emit callback set `invalid` for this field (or was it set before)? -/
+def metaInvalid (st : MetaState) (f : Field) : Bool :=
+  st.invalid || !validHeaderFieldValue f.value ||
+    (if f.isPseudo then st.sawRegular else !validWireHeaderFieldName f.name)
+
+/-- the emit callback (called by the decoder only while emission is enabled). -/
+def metaEmit (st : MetaState) (f : Field) : MetaState :=
+  if !st.enabled then st
+  else if metaInvalid st f then
+    { st with sawRegular := st.sawRegular || !f.isPseudo, invalid := true, enabled := false }
+  else if f.size > st.remainSize then
+    { st with sawRegular := st.sawRegular || !f.isPseudo, enabled := false, truncated := true, remainSize := 0 }
+  else
+    { st with sawRegular := st.sawRegular || !f.isPseudo, remainSize := st.remainSize - f.size,
+              fields := st.fields ++ [f] }
+
+/-- `hdec.Write(frag)`: the new callback state and whether `Write` returned an error. -/
+def metaWrite (st : MetaState) (d : FragDec) : MetaState × Bool :=
+  let st' := d.fields.foldl metaEmit st
+  (st', d.errAlways || (d.errEnabled && st'.enabled))
+
+def pseudoRequest : List (List Nat) :=
+  [[58, 109, 101, 116, 104, 111, 100],                    -- :method
+   [58, 112, 97, 116, 104],                               -- :path
+   [58, 115, 99, 104, 101, 109, 101],                     -- :scheme
+   [58, 97, 117, 116, 104, 111, 114, 105, 116, 121],      -- :authority
+   [58, 112, 114, 111, 116, 111, 99, 111, 108]]           -- :protocol
+def pseudoResponse : List (List Nat) := [[58, 115, 116, 97, 116, 117, 115]]  -- :status
+
+/-- `mh.PseudoFields()`. -/
+def pseudoFields (fs : List Field) : List Field := fs.takeWhile Field.isPseudo
+
+/-- the loop of `checkPseudos` over `pf`, `seen` being `pf[:i]`: error or (isRequest, isResponse). -/
+def checkPseudosLoop : List Field → List Field → Bool → Bool → Option (Bool × Bool)
+  | [], _, rq, rs => some (rq, rs)
+  | hf :: rest, seen, rq, rs =>
+    if pseudoRequest.contains hf.name then
+      if seen.any (fun h2 => h2.name == hf.name) then none
+      else checkPseudosLoop rest (seen ++ [hf]) true rs
+    else if pseudoResponse.contains hf.name then
+      if seen.any (fun h2 => h2.name == hf.name) then none
+      else checkPseudosLoop rest (seen ++ [hf]) rq true
+    else none
+
+/-- `MetaHeadersFrame.checkPseudos() == nil`. -/
+def checkPseudos (fs : List Field) : Bool :=
+  match checkPseudosLoop (pseudoFields fs) [] false false with
+  | none => false
+  | some (rq, rs) => !(rq && rs)
+
+/-- The `for` loop of `readMetaFrame`, entered with the current fragment `frag` and whether its
+frame had END_HEADERS. `fuel` bounds the number of CONTINUATION frames (each consumes ≥ 9 bytes of
+`bs`, so `bs.length + 1` suffices: `readMeta`). Returns the callback state at `break`, or the error. -/
+def metaLoop : Nat → Framer → MetaState → List Nat → Bool → List FragDec → List Nat →
+    Except RErr MetaState × Framer × List Nat
+  | 0, fr, _, _, _, _, bs => (.error .eof, fr, bs)
+  | fuel + 1, fr, st, frag, ended, decs, bs =>
+    if frag.length > 2 * st.remainSize % 4294967296 then (.error (.conn errCodeProtocol), fr, bs)
+    else if st.invalid then (.error (.conn errCodeProtocol), fr, bs)
+    else
+      let (st', werr) := metaWrite st (decs.headD {})
+      if werr then (.error (.conn errCodeCompression), fr, bs)
+      else if ended then (.ok st', fr, bs)
+      else
+        let r := readFrame fr bs
+        match r.res with
+        | .error e => (.error e, r.fr, r.rest)
+        | .ok (.continuation h frag') =>
+          metaLoop fuel r.fr st' frag' (hasFlag h.flags flagEndHeaders) decs.tail r.rest
+        | .ok _ => (.error .eof, r.fr, r.rest)   -- unreachable: checkFrameOrder admits only CONTINUATION
+
+/-- what `ReadFrame` returns when `ReadMetaHeaders` is set. -/
+inductive MFrame where
+  | plain (f : Frame)
+  | metaHeaders (h : FrameHeader) (prio : PriorityParam) (fields : List Field) (truncated : Bool)
+deriving Repr
+
+structure MetaReadResult where
+  res : Except RErr MFrame
+  fr : Framer
+  rest : List Nat
+
+/-- `Framer.ReadFrame` with `ReadMetaHeaders` set and `MaxHeaderListSize = mhls`. -/
+def readMeta (fr : Framer) (mhls : Nat) (orc : HpackOracle) (bs : List Nat) : MetaReadResult :=
+  let r := readFrame fr bs
+  match r.res with
+  | .error e => ⟨.error e, r.fr, r.rest⟩
+  | .ok (.headers h prio frag) =>
+    match metaLoop (r.rest.length + 1) r.fr { remainSize := maxHeaderListSize mhls } frag
+            (hasFlag h.flags flagEndHeaders) orc.decs r.rest with
+    | (.error e, fr', rest') => ⟨.error e, fr', rest'⟩
+    | (.ok st, fr', rest') =>
+      if orc.closeErr then ⟨.error (.conn errCodeCompression), fr', rest'⟩
+      else if st.invalid then ⟨.error (.stream h.streamID errCodeProtocol), fr', rest'⟩
+      else if !checkPseudos st.fields then ⟨.error (.stream h.streamID errCodeProtocol), fr', rest'⟩
+      else ⟨.ok (.metaHeaders h prio st.fields st.truncated), fr', rest'⟩
+  | .ok f => ⟨.ok (.plain f), r.fr, r.rest⟩
+
 end NetVerif.Model.H2Frame
